@@ -339,6 +339,9 @@ func (n *branch) prove(m *mpt, keys []byte, proof [][]byte) (nn node, obj trie.O
 	}
 
 	if len(keys) == 0 {
+		if len(proof) != 0 {
+			return n, nil, common.ErrIllegalArgument
+		}
 		if n.value != nil {
 			value, changed, err := m.getObject(n.value)
 			if err != nil {
